@@ -176,12 +176,12 @@ func redactCommand(cmd *orderedmap.OrderedMap[string, any], shouldEagerRedact bo
 	}
 	if updates, ok := cmd.Get("updates"); ok {
 		if updatesArr, ok := updates.([]any); ok {
-			cmd.Set("updates", redactArrayValues(updatesArr, shouldEagerRedact, false, false, []string{}))
+			cmd.Set("updates", redactWriteStatements(updatesArr, shouldEagerRedact))
 		}
 	}
 	if deletes, ok := cmd.Get("deletes"); ok {
 		if deletesArr, ok := deletes.([]any); ok {
-			cmd.Set("deletes", redactArrayValues(deletesArr, shouldEagerRedact, false, false, []string{}))
+			cmd.Set("deletes", redactWriteStatements(deletesArr, shouldEagerRedact))
 		}
 	}
 	if update, ok := cmd.Get("q"); ok {
@@ -636,13 +636,39 @@ func redactFieldNameArgument(v interface{}, keyPath []string, inSearchStage bool
 	}
 }
 
+// redactWriteStatements walks the statements of an update / delete command. The members of a
+// statement (q, u, c, ...) are protocol keys like the q / u members of a WRITE line, not field
+// names of the documents below them: the key path of those documents starts below the member, so
+// that --redactFieldsRegexp is matched against field names only.
+func redactWriteStatements(stmts []any, redactFieldNames bool) []any {
+	for i, stmt := range stmts {
+		if stmtMap, ok := stmt.(*orderedmap.OrderedMap[string, any]); ok {
+			stmts[i] = redactDocument(stmtMap, redactFieldNames, false, nil, []string{}, false)
+		} else {
+			stmts[i] = redactArrayValues([]any{stmt}, redactFieldNames, false, false, []string{})[0]
+		}
+	}
+	return stmts
+}
+
 func redactQueryValues(obj *orderedmap.OrderedMap[string, any], redactFieldNames bool, isSearchStage bool, parentCoreOp interface{}, keyPath []string) *orderedmap.OrderedMap[string, any] {
+	return redactDocument(obj, redactFieldNames, isSearchStage, parentCoreOp, keyPath, true)
+}
+
+// redactDocument is redactQueryValues with one more switch: keysAreFieldNames is false for a
+// document whose own keys are protocol keys (a write statement); documents and arrays below such
+// a key then start with an empty key path.
+func redactDocument(obj *orderedmap.OrderedMap[string, any], redactFieldNames bool, isSearchStage bool, parentCoreOp interface{}, keyPath []string, keysAreFieldNames bool) *orderedmap.OrderedMap[string, any] {
 	newObj := orderedmap.NewOrderedMap[string, any]()
 	for el := obj.Front(); el != nil; el = el.Next() {
 		k := el.Key
 		v := el.Value
 		redactedKey := k
 		newKeyPath := append(keyPath, k)
+		childKeyPath := newKeyPath
+		if !keysAreFieldNames {
+			childKeyPath = []string{}
+		}
 		var isOp bool
 		var coreOp interface{}
 		if parentCoreOp != nil {
@@ -661,10 +687,10 @@ func redactQueryValues(obj *orderedmap.OrderedMap[string, any], redactFieldNames
 		}
 		switch val := v.(type) {
 		case *orderedmap.OrderedMap[string, any]:
-			newObj.Set(redactedKey, redactQueryValues(val, redactFieldNames, isSearchStage, coreOp, newKeyPath))
+			newObj.Set(redactedKey, redactQueryValues(val, redactFieldNames, isSearchStage, coreOp, childKeyPath))
 		case []any:
 			isSelectivelyRedactable := isRedactableFieldPatternInArray(val)
-			newObj.Set(redactedKey, redactArrayValuesWithKey(k, val, redactFieldNames, isSearchStage, isSelectivelyRedactable, newKeyPath))
+			newObj.Set(redactedKey, redactArrayValuesWithKey(k, val, redactFieldNames, isSearchStage, isSelectivelyRedactable, childKeyPath))
 		default:
 			if v != nil {
 				if str, ok := v.(string); ok && len(str) > 0 && str[0] == '$' {
